@@ -150,6 +150,12 @@ func regularised_gamma_prefix(a, z float64) float64 {
   amz    := a - z
   alzoa  := a*math.Log(zoa)
   prefix := 0.0
+  if math.Abs(amz) < 0.5*a {
+    // (z/a)^a exp(a-z) = exp(a (log1p(sigma) - sigma)), sigma = (z-a)/a;
+    // rounding z/a first costs a*eps/2 relative accuracy
+    sigma := -amz/a
+    prefix = math.Exp(a*(math.Log1p(sigma) - sigma))
+  } else
   if math.Min(alzoa, amz) <= MinLogFloat64 || math.Max(alzoa, amz) >= MaxLogFloat64 {
     amza := amz / a
     if amza <= MinLogFloat64 || amza >= MaxLogFloat64 {
